@@ -7,7 +7,7 @@ SPECIFICATION Spec
 CONSTANTS
   Family = "list"
   Kinds = {"list_int"}
-  Prefills = {0, 7}
+  Prefills = {0, 7, 40}
   InitCaps = {0, 100, 103}
   Vals = {1, 2, 3}
   MaxLen = 200
